@@ -45,7 +45,7 @@ def demo_info(d):
     run = ""
     p = os.path.join(d, "RUN.md")
     if os.path.exists(p):
-        run = open(p).read()
+        run = open(p).read().replace("`", " ")
     files = [f for f in glob.glob(os.path.join(d, "*_test.go"))]
     dest = None
     m = re.search(r"cp\s+\S*_test\.go\s+(\S+)", run)
@@ -59,13 +59,18 @@ def demo_info(d):
 
 
 def main():
-    only = sys.argv[1:]
+    only = [a for a in sys.argv[1:] if not a.startswith("--")]
     os.makedirs("/verif/seeded", exist_ok=True)
     for d in sorted(glob.glob("/tmp/seed/out/C*/m*")):
         pid, mn = d.split("/")[-2], d.split("/")[-1]
         name = f"{pid}-{mn}"
         if only and name not in only and pid not in only:
             continue
+        try:
+            if json.load(open(f"/verif/seeded/{name}/meta.json"))["confirmation"]["status"] == "confirmed" and "--force" not in sys.argv:
+                continue
+        except Exception:
+            pass
         patch = os.path.join(d, "patch_rebased.diff")
         rebased = os.path.exists(patch)
         if not rebased:
